@@ -16,8 +16,12 @@ from symex import Adt, Sym, conj, disj, neg
 def build(pid, P, R, tier, log_dir):
     import mirx_props as mp
     if pid == "C02":
+        import tc_props
+        # the checker's typing of arithmetic / compound assignment must be the typing the emitted Rust has (otherwise rustc rejects an accepted program):
+        # the two type-checker slices of C07 are part of C02's first half as well
+        typed = [ob for ob in tc_props.build("C07", P, R, tier, log_dir) if ob.id in ("X-compound_assign", "X-check_binary")]
         return [mp.XOb("X-accept_implies_lower_assign", "", "", lambda: run_accept_implies_lower(P, R, mp, log_dir)),
-                mp.XOb("X-lower_total", "", "", lambda: run_lower_total(P, R, mp, log_dir))]
+                mp.XOb("X-lower_total", "", "", lambda: run_lower_total(P, R, mp, log_dir))] + typed
     if pid != "C03":
         return []
     return [mp.XOb("X-check_assign", "", "", lambda: run_check_assign(P, R, mp, log_dir)),
@@ -222,6 +226,7 @@ ASSIGN_PROGRAMS = [
     ("same_scope_mutable", "def g(n: int) -> int:\n    mut total = 0\n    total = 4\n    return total\n", "ACCEPTED", None),
     ("other_fn_mutable_same_name", "def a() -> int:\n    mut x = 1\n    x = 2\n    return x\n\ndef b() -> int:\n    x = 1\n    x = 2\n    return x\n", "REJECTED", "x"),
     ("plain_param", "def a(x: int) -> int:\n    x = 2\n    return x\n", "REJECTED", "x"),
+    ("inner_let_shadow_then_outer_reassign", "def g(n: int) -> int:\n    mut total = 0\n    for i in [1, 2]:\n        let total = i\n    total = 5\n    return total\n", "ACCEPTED", None),
     ("wrong_type_same_scope", "def a() -> int:\n    mut x = 1\n    x = \"s\"\n    return x\n", "REJECTED", None),
 ]
 
